@@ -311,6 +311,11 @@ def c03(tier, replay):
     # forced replies, among them positions whose only legal move is an en-passant capture / a promotion
     for p in FORCED:
         sessions.append([{"do": "send", "line": p}, {"do": "go", "line": rng.choice(GO_SMALL)}, {"do": "send", "line": p}, {"do": "go", "line": rng.choice(GO_ZERO)}])
+    # go lines made of UCI keywords the pinned engine does not know, with small values and no clock (to the pinned engine a go
+    # without any clock; an engine that learns `movetime` / `depth` / `nodes` must still answer each of them exactly once - a
+    # slice computed as "movetime minus overhead" on unsigned numbers never ends for small values)
+    for gl in ("go movetime 10", "go movetime 0", "go movetime 1", "go movetime 19", "go movetime 250", "go depth 1", "go depth 0", "go nodes 1", "go nodes 0", "go mate 1"):
+        sessions.append([{"do": "send", "line": rng.choice(live)}, {"do": "go", "line": gl}, {"do": "isready"}, {"do": "go", "line": gl}, {"do": "isready"}])
     # GUI-style games: position <game so far> / go / reply / ... in one process
     games, _ = game_sessions(rng, live, 4 if q else 40, "c3g", plies=6)
     sessions += games
